@@ -35,7 +35,8 @@ func lookupNode[T any](urlTree *URLTree[T], url string) lookupNodeResult[T] {
 	var foundWildcardParams map[string]string
 	urlPath := ""
 	for _, urlPart := range splitURL {
-		if currentNode.WildcardChild != nil {
+		if currentNode.WildcardChild != nil &&
+			currentNode.WildcardChild.IsPartOfHost == urlPart.IsPartOfHost {
 			foundWildcardNode = currentNode.WildcardChild
 			foundWildcardPath = urlPath + getDelimiter(urlPart) + wildcard
 			foundWildcardParams = copyParams(params)
